@@ -25,6 +25,8 @@ enum MsgAlpha {
     Grammar,
     /// any byte but LF
     Bytes,
+    /// valid UTF-8 with multi-byte characters, no '>' and no CR
+    Utf8,
 }
 
 fn gen_message(t: &mut Tape, alpha: MsgAlpha) -> Vec<u8> {
@@ -52,7 +54,7 @@ fn gen_message(t: &mut Tape, alpha: MsgAlpha) -> Vec<u8> {
                     *t.pick(GRAMMAR)
                 }
             }
-            MsgAlpha::Bytes => {
+            MsgAlpha::Bytes | MsgAlpha::Utf8 => {
                 let b = t.u8();
                 if b == b'\n' {
                     0x0b
@@ -62,6 +64,14 @@ fn gen_message(t: &mut Tape, alpha: MsgAlpha) -> Vec<u8> {
             }
         }
     };
+    if alpha == MsgAlpha::Utf8 {
+        // characters of 1..4 bytes; `len` counts characters here
+        const CHARS: &[char] = &['a', 'Z', ' ', ':', '\u{e4}', '\u{2192}', '\u{1d11e}', '\u{fffd}', '\t', '<'];
+        let plen = t.range(1, 6).min(len);
+        let pattern: Vec<char> = (0..plen).map(|_| *t.pick(CHARS)).collect();
+        let s: String = pattern.iter().copied().cycle().take(len).collect();
+        return s.into_bytes();
+    }
     let plen = t.range(1, 8).min(len);
     let pattern: Vec<u8> = (0..plen).map(|_| pick(t)).collect();
     let mut m: Vec<u8> = pattern.iter().copied().cycle().take(len).collect();
@@ -88,7 +98,16 @@ fn gen_line(t: &mut Tape, alpha: MsgAlpha) -> Line {
 }
 
 fn gen_lines(t: &mut Tape) -> (Vec<Line>, MsgAlpha) {
-    let alpha = *t.pick(&[MsgAlpha::Plain, MsgAlpha::Plain, MsgAlpha::Grammar, MsgAlpha::Bytes]);
+    let alpha = *t.pick(&[
+        MsgAlpha::Plain,
+        MsgAlpha::Plain,
+        MsgAlpha::Plain,
+        MsgAlpha::Utf8,
+        MsgAlpha::Utf8,
+        MsgAlpha::Grammar,
+        MsgAlpha::Grammar,
+        MsgAlpha::Bytes,
+    ]);
     let n = match t.weighted(&[1, 2, 2, 6, 4, 2]) {
         0 => 0,
         1 => 1,
@@ -337,9 +356,9 @@ fn hash_lines(c: &mut Case, lines: &[Line]) {
 
 // ---------------------------------------------------------------------------------------------
 
-fn main() {
+pub fn main() {
     let mut ck = Check::new("C21", "exploration");
-    ck.rule("Reflogs of 0..50 entries; ids from a pool (null id, all-ones, ...) or random; signatures as in C01 (names/emails without <,>,LF, TAB allowed inside; times incl. negative, 10^k boundaries, extremes; offsets below 100h, -0000); messages of length 0, 1, 2..40, 80, 500, 2000 over one of three alphabets per log: plain text (no '>' / CR), grammar bytes ('>', '<', TAB, CR, SP), any byte but LF, with bytes placed at the first/last position. The log is written with Line::write_to (optionally without the final newline), or appended through file::Store transactions, or written by git update-ref. Reverse reading uses every buffer size in [L, file+2] when that span is <= 200, else L..L+4, 2L-1..2L+1, file-1..file+1, 512, 4096 and 16 drawn sizes, where L = longest line + 1 separator byte. Non-trivial: >= 3 entries and at least one buffer smaller than the file (the window slides). Distinct by all entry fields.");
+    ck.rule("Reflogs of 0..50 entries; ids from a pool (null id, all-ones, ...) or random; signatures as in C01 (names/emails without <,>,LF, TAB allowed inside; times incl. negative, 10^k boundaries, extremes; offsets below 100h, -0000); messages of length 0, 1, 2..40, 80, 500, 2000 over one of four alphabets per log: plain ASCII (no '>' / CR), multi-byte UTF-8 text, grammar bytes ('>', '<', TAB, CR, SP, invalid UTF-8), any byte but LF, with bytes placed at the first/last position. The log is written with Line::write_to (optionally without the final newline), or appended through file::Store transactions, or written by git update-ref. Reverse reading uses every buffer size in [L, file+2] when that span is <= 200, else L..L+4, 2L-1..2L+1, file-1..file+1, 512, 4096 and 16 drawn sizes, where L = longest line + 1 separator byte. Non-trivial: >= 3 entries and at least one buffer smaller than the file (the window slides). Distinct by all entry fields.");
     ck.assume("buffer sizes start at L = (longest line content + 1): the line plus one newline; the last line of a log without final newline needs its preceding newline in the window");
     ck.assume(&format!("git-written: {}; identities and messages are compared to what `git log -g --date=raw` prints (%gn %ge %gd %gs), ids to the values given to update-ref", Git::version()));
 
@@ -366,6 +385,7 @@ fn main() {
             MsgAlpha::Plain => "msg-plain",
             MsgAlpha::Grammar => "msg-grammar-bytes",
             MsgAlpha::Bytes => "msg-any-bytes",
+            MsgAlpha::Utf8 => "msg-utf8-multibyte",
         });
         c.label(match lines.len() {
             0 => "entries-0",
@@ -408,7 +428,16 @@ fn main() {
 
     ck.sub("store-append", SubCfg::new(1_500, 40_000).max_len(1024), |t, c| {
         use gix_ref::transaction::{Change, LogChange, PreviousValue, RefEdit, RefLog};
-        let alpha = *t.pick(&[MsgAlpha::Plain, MsgAlpha::Plain, MsgAlpha::Grammar, MsgAlpha::Bytes]);
+        let alpha = *t.pick(&[
+            MsgAlpha::Plain,
+            MsgAlpha::Plain,
+            MsgAlpha::Plain,
+            MsgAlpha::Utf8,
+            MsgAlpha::Utf8,
+            MsgAlpha::Grammar,
+            MsgAlpha::Grammar,
+            MsgAlpha::Bytes,
+        ]);
         let n = t.range(1, 8);
         let name = *t.pick(&["refs/heads/main", "refs/tags/t", "refs/x/y/z", "refs/remotes/o/a-b"]);
         let mut entries: Vec<Line> = Vec::new();
@@ -430,6 +459,7 @@ fn main() {
             MsgAlpha::Plain => "msg-plain",
             MsgAlpha::Grammar => "msg-grammar-bytes",
             MsgAlpha::Bytes => "msg-any-bytes",
+            MsgAlpha::Utf8 => "msg-utf8-multibyte",
         });
         let non_utf8 = entries.iter().any(|l| l.message.to_str().is_err());
         c.label_if(non_utf8, "non-utf8-message");
@@ -541,6 +571,7 @@ fn main() {
 
     ck.sub("git-written", SubCfg::new(120, 3_000).max_len(512).max_shrink(40), |t, c| {
         let n = t.range(1, 6);
+        let with_gt = t.chance(64);
         struct Upd {
             commit: usize,
             name: Vec<u8>,
@@ -573,8 +604,9 @@ fn main() {
             let msg = if t.chance(40) {
                 None
             } else {
-                const MSG: &[u8] = b"abc XYZ:->< \t(){}'\"@~\xc3\xa4\r.";
-                let m = t.string_of(MSG, 1, 40);
+                const MSG: &[u8] = b"abc XYZ:-< \t(){}'\"@~\xc3\xa4\r.\xff";
+                const MSG_GT: &[u8] = b"abc XYZ:->< \t(){}'\"@~\xc3\xa4\r.\xff";
+                let m = t.string_of(if with_gt { MSG_GT } else { MSG }, 1, 40);
                 Some(m)
             };
             upds.push(Upd {
